@@ -37,13 +37,17 @@ def none_defaults(prog: Program, rep, RID: str):
             for st in stores_to_self_attr(init.node, p):
                 if isinstance(st, ast.Assign) and isinstance(st.value, ast.Name) and st.value.id == p:
                     attr = p
+                if isinstance(st, ast.Assign) and isinstance(st.value, ast.IfExp) and p in (norm(st.value.body), norm(st.value.orelse)):
+                    attr = p
             if attr is None:
                 continue
             # normalisation in the constructor: a store to self.p under `self.p is None` / `p is None`
             normalised = False
+            from sa import boolnf as B
+            isnone = B.mk_or([B.parse(ast.parse(f"self.{p} is None", mode="eval").body), B.parse(ast.parse(f"{p} is None", mode="eval").body)])
             for st in stores_to_self_attr(init.node, p):
-                tests = [norm(t) for t, pol in enclosing_tests(init.node, st) if pol]
-                if any(t in (f"self.{p} is None", f"{p} is None") for t in tests) and not (isinstance(st.value, ast.Constant) and st.value.value is None):
+                cond = B.mk_and([B.parse_pol(t, pol) for t, pol in enclosing_tests(init.node, st)])
+                if cond != B.T and B.implies(cond, isnone) and not (isinstance(st.value, ast.Constant) and st.value.value is None):
                     normalised = True
             uses = []
             for f in cls.methods.values():
